@@ -26,6 +26,9 @@ def canon(v):
         return "L[" + ",".join(canon(x) for x in v) + "]"
     if isinstance(v, float):
         return "F" + repr(v)
+    if isinstance(v, dict):
+        # outside the model's value domain (implementation-side oracles only): rendered with its content so that two dictionaries compare by value
+        return "D{" + ",".join(sorted("%s:%s" % (canon(k), canon(x)) for k, x in v.items())) + "}"
     return "?" + type(v).__name__
 
 
@@ -177,6 +180,14 @@ def register():
         if not isinstance(d, dict):
             raise TypeError("d")
         d[k] = len(d) + 1    # in place; returns the very object it was given
+        return d
+
+    @command
+    def nest(d, k="x"):
+        _log("root", "nest", None, k)
+        if not isinstance(d, dict):
+            raise TypeError("d")
+        d.setdefault("in", []).append(k)    # in place, in a NESTED container
         return d
 
     @command(ns="alt")
